@@ -485,17 +485,23 @@ req_sketch<T, C, A> req_sketch<T, C, A>::deserialize(std::istream& is, const Ser
     (*tmp).~T();
   }
 
+  uint64_t weight = 0; // total weight of the compactors
   if (raw_items) {
     compactors.push_back(Compactor::deserialize(is, sd, comparator, allocator, is_level_0_sorted, k, num_raw_items, hra));
+    weight = num_raw_items;
   } else {
     for (size_t i = 0; i < num_levels; ++i) {
-      compactors.push_back(Compactor::deserialize(is, sd, comparator, allocator, i == 0 ? is_level_0_sorted : true, hra));
+      compactors.push_back(Compactor::deserialize(is, sd, comparator, allocator, i == 0 ? is_level_0_sorted : true, hra,
+          max_num_items(num_levels, i, k, n - weight)));
+      check_lg_weight(compactors[i].get_lg_weight(), i);
+      weight += static_cast<uint64_t>(compactors[i].get_num_items()) << i;
     }
   }
+  if (num_levels == 1) n = weight;
+  check_n(n, weight);
   if (num_levels == 1) {
     const auto begin = compactors[0].begin();
     const auto end = compactors[0].end();
-    n = compactors[0].get_num_items();
     auto min_it = begin;
     auto max_it = begin;
     for (auto it = begin; it != end; ++it) {
@@ -563,21 +569,27 @@ req_sketch<T, C, A> req_sketch<T, C, A>::deserialize(const void* bytes, size_t s
     (*tmp).~T();
   }
 
+  uint64_t weight = 0; // total weight of the compactors
   if (raw_items) {
     auto pair = Compactor::deserialize(ptr, end_ptr - ptr, sd, comparator, allocator, is_level_0_sorted, k, num_raw_items, hra);
     compactors.push_back(std::move(pair.first));
     ptr += pair.second;
+    weight = num_raw_items;
   } else {
     for (size_t i = 0; i < num_levels; ++i) {
-      auto pair = Compactor::deserialize(ptr, end_ptr - ptr, sd, comparator, allocator, i == 0 ? is_level_0_sorted : true, hra);
+      auto pair = Compactor::deserialize(ptr, end_ptr - ptr, sd, comparator, allocator, i == 0 ? is_level_0_sorted : true, hra,
+          max_num_items(num_levels, i, k, n - weight));
+      check_lg_weight(pair.first.get_lg_weight(), i);
+      weight += static_cast<uint64_t>(pair.first.get_num_items()) << i;
       compactors.push_back(std::move(pair.first));
       ptr += pair.second;
     }
   }
+  if (num_levels == 1) n = weight;
+  check_n(n, weight);
   if (num_levels == 1) {
     const auto begin = compactors[0].begin();
     const auto end = compactors[0].end();
-    n = compactors[0].get_num_items();
     auto min_it = begin;
     auto max_it = begin;
     for (auto it = begin; it != end; ++it) {
@@ -713,6 +725,31 @@ void req_sketch<T, C, A>::check_num_levels(uint8_t num_levels) {
   if (num_levels < 1 || num_levels > 64) {
     throw std::invalid_argument("Possible corruption: number of levels of a non-empty sketch must be between 1 and 64, got "
         + std::to_string(num_levels));
+  }
+}
+
+template<typename T, typename C, typename A>
+uint64_t req_sketch<T, C, A>::max_num_items(uint8_t num_levels, size_t level, uint16_t k, uint64_t weight_left) {
+  // a sketch with one level was never compacted: it has fewer items than the nominal capacity of a new level 0
+  if (num_levels == 1) return req_constants::MULTIPLIER * req_constants::INIT_NUM_SECTIONS * k;
+  // items at this level have weight 2^level each, and all levels together have weight N
+  return weight_left >> level;
+}
+
+template<typename T, typename C, typename A>
+void req_sketch<T, C, A>::check_lg_weight(uint8_t lg_weight, size_t level) {
+  if (lg_weight != level) {
+    throw std::invalid_argument("Possible corruption: lg weight of the compactor at level " + std::to_string(level)
+        + " must be " + std::to_string(level) + ", got " + std::to_string(lg_weight));
+  }
+}
+
+template<typename T, typename C, typename A>
+void req_sketch<T, C, A>::check_n(uint64_t n, uint64_t weight) {
+  if (n == 0) throw std::invalid_argument("Possible corruption: N of a non-empty sketch must be positive");
+  if (n != weight) {
+    throw std::invalid_argument("Possible corruption: N must be equal to the total weight of retained items "
+        + std::to_string(weight) + ", got " + std::to_string(n));
   }
 }
 
